@@ -29,6 +29,23 @@ def build(rng, tier):
                 inst = f"{pid}_{j}"
                 cases.append(engcheck.Case(pid, inst, engcheck.std_history(inst, pid, inp) if not par else
                                            [f"eng new {inst} {pid} par"] + engcheck.std_history(inst, pid, inp)[1:], {"inp": inp, "kind": "par" if par else "serial"}))
+    # wide (arity 6-8) and nullary relations and facts (gen.forced_programs), serial and parallel, on inputs that already contain derivable rows: a nullary relation holds at most
+    # ONE row (the unit tuple) however many bindings derive it, a fact that is also an input row is not appended again
+    for pid0, q in gen.forced_programs().items():
+        for par in (False, True):
+            pid = pid0 + ("q" if par else "s")
+            progs[pid] = q
+            mods.append((pid, eng.rs_module(pid, q, macro="ascent_par" if par else "ascent")))
+            for j in range(4 if tier == "quick" else 12):
+                r2 = rng.fork(f"{pid}i{j}")
+                inp = gen.forced_input(pid0, r2, j)
+                if j % 2 == 1:
+                    db = eng.naive_model(q, inp)
+                    for rel in range(len(q["rels"])):
+                        have = set(inp.get(rel, []))
+                        inp[rel] = list(inp.get(rel, [])) + [tuple(t) for t in sorted(db[rel]) if tuple(t) not in have][: r2.range(0, 2)]
+                inst = f"{pid}_{j}"
+                cases.append(engcheck.Case(pid, inst, ([f"eng new {inst} {pid} par"] if par else [f"eng new {inst} {pid}"]) + engcheck.std_history(inst, pid, inp)[1:], {"inp": inp, "kind": ("par" if par else "serial") + "-forced-" + pid0}))
     # forced shape "write-only head": a recursive multi-head rule one of whose head relations nothing in its stratum reads, re-derived by a LATER stratum:
     #   reach(y), seen(y) <-- reach(x), edge(x, y);   probe(x) <-- reach(x);   seen(x) <-- probe(x)
     # with inputs in which the last productive iteration of the recursive stratum adds rows of `seen` only (reach(y) is already an input fact): every row must have
